@@ -586,14 +586,29 @@ def run_rewrite(rng, obs):
         tol = rng.choice([1e-8, 1e-3, 0.5])
         x = [v * rng.choice([1.0, 1e-4, 1e-9, 0.1]) for v in x]
         exit_ = rng.choice([False, True])
-        mk = lambda: mt.suppressed(**style(rng, dict(tol=tol, exit=exit_), dict(tol=1e-8, exit=False), obs))(ident); f = mk()
+        clip = rng.random() >= 0.3
+        mk = lambda: mt.suppressed(**style(rng, dict(tol=tol, exit=exit_, clip=clip), dict(tol=1e-8, exit=False, clip=True), obs))(ident); f = mk()
         y = f(list(x))
-        exp = [0.0 if abs(v) < tol else v for v in x]
-        obs.desc.update({'tol': tol, 'exit': exit_, 'x': x})
-        obs.check(list(y) == exp, 'target:suppressed zeroes exactly the entries below tol', x=x, y=list(y), expected=exp)
-        frame(obs, x, list(y), set(i for i in range(n) if abs(x[i]) < tol), 'suppressed')
-        idem(obs, f, list(y), 'suppressed'); obs.event('assert:type')
-        obs.nontrivial = exp != x and any(a == b and a != 0 for a, b in zip(exp, x))
+        small = set(i for i in range(n) if abs(x[i]) < tol)
+        obs.desc.update({'tol': tol, 'exit': exit_, 'x': x, 'clip': clip})
+        if clip:
+            exp = [0.0 if i in small else v for i, v in enumerate(x)]
+            obs.check(list(y) == exp, 'target:suppressed zeroes exactly the entries below tol', x=x, y=list(y), expected=exp)
+            frame(obs, x, list(y), small, 'suppressed')
+            idem(obs, f, list(y), 'suppressed'); obs.event('assert:type')
+        else:
+            # clip=False (documented): the suppressed mass is spread evenly over the entries that stay, so the sum is preserved
+            kept = [i for i in range(n) if i not in small]
+            share = math.fsum(x[i] for i in small) / len(kept) if kept else 0.0
+            exp = [0.0 if i in small else x[i] + share for i in range(n)]
+            ok = len(y) == n and all(y[i] == 0.0 for i in small) and all(abs(y[i] - exp[i]) <= 1e-12 * max(abs(exp[i]), abs(x[i]), abs(share)) for i in kept)
+            obs.check(ok, 'target:suppressed(clip=False) zeroes the entries below tol and spreads their sum evenly over the others', x=x, y=list(y), expected=exp, tol=tol)
+            if kept:
+                obs.check(abs(math.fsum(y) - math.fsum(x)) <= 1e-12 * max(math.fsum(abs(v) for v in x), 1e-300), 'target:suppressed(clip=False) preserves the sum', x=x, y=list(y), tol=tol)
+            if all(abs(exp[i]) >= 2 * tol for i in kept):
+                idem(obs, f, list(y), 'suppressed')
+            obs.event('assert:type'); obs.event('suppressed_spreading')
+        obs.nontrivial = bool(small) and len(small) < n and any(x[i] != 0 for i in range(n) if i not in small)
     reuse(obs, rng, locals(), 'rewrite')
     obs.notes = {'y': tolist(y) if not isinstance(y, (int, float)) else y}
 
